@@ -9,10 +9,6 @@ set_option linter.unusedSimpArgs false
 namespace BtcVerif
 open BtcVerif.Spec.Script BtcVerif.Model.Script
 
-/-- error raised by raw_iter at the malformed push `b :: t` -/
-def stepErr (b : UInt8) (t : Bytes) : IterErr :=
-  if t.length < lenBytes b.toNat then .missingLen else .truncated (t.drop (lenBytes b.toNat))
-
 theorem u8_ofNat_toNat_self (b : UInt8) : UInt8.ofNat b.toNat = b := by
   apply u8_eq_of_toNat; rw [u8_ofNat_toNat _ b.toNat_lt]
 
@@ -27,44 +23,44 @@ theorem rawStep_cons (idx : Nat) (b : UInt8) (t : Bytes) :
     rawStep idx (b :: t) =
       match getOp (b :: t) with
       | some (o, d, rest) => some (.op ⟨o, if o > 0x4e then none else some d, idx⟩ rest)
-      | none => some (.err (stepErr b t)) := by
+      | none => some (.err (truncErr b t)) := by
   by_cases h1 : b.toNat > 0x4e
   · simp [rawStep, getOp, h1]
   · by_cases h2 : b.toNat < 0x4c
     · by_cases h3 : t.length < b.toNat
-      · simp [rawStep, getOp, stepErr, lenBytes, declaredSize, h1, h2, h3, take_length_lt_iff,
+      · simp [rawStep, getOp, truncErr, lenBytes, declaredSize, h1, h2, h3, take_length_lt_iff,
           take_eq_self_of_length_lt t h3]
-      · simp [rawStep, getOp, stepErr, lenBytes, declaredSize, h1, h2, h3, take_length_lt_iff]
+      · simp [rawStep, getOp, truncErr, lenBytes, declaredSize, h1, h2, h3, take_length_lt_iff]
     · by_cases h4 : b.toNat = 0x4c
       · rcases t with _ | ⟨l0, r⟩
-        · simp [rawStep, getOp, stepErr, lenBytes, declaredSize, h4]
+        · simp [rawStep, getOp, truncErr, lenBytes, declaredSize, h4]
         · by_cases h3 : r.length < l0.toNat
-          · simp [rawStep, getOp, stepErr, lenBytes, declaredSize, h4, leNat, h3, take_length_lt_iff,
+          · simp [rawStep, getOp, truncErr, lenBytes, declaredSize, h4, leNat, h3, take_length_lt_iff,
               take_eq_self_of_length_lt r h3]
-          · simp [rawStep, getOp, stepErr, lenBytes, declaredSize, h4, leNat, h3, take_length_lt_iff]
+          · simp [rawStep, getOp, truncErr, lenBytes, declaredSize, h4, leNat, h3, take_length_lt_iff]
       · by_cases h5 : b.toNat = 0x4d
         · rcases t with _ | ⟨l0, _ | ⟨l1, r⟩⟩
-          · simp [rawStep, getOp, stepErr, lenBytes, declaredSize, h5]
-          · simp [rawStep, getOp, stepErr, lenBytes, declaredSize, h5]
+          · simp [rawStep, getOp, truncErr, lenBytes, declaredSize, h5]
+          · simp [rawStep, getOp, truncErr, lenBytes, declaredSize, h5]
           · have e : l0.toNat + l1.toNat * 256 = l0.toNat + 256 * l1.toNat := by omega
             have hL : ¬ (r.length + 1 + 1 < 2) := by omega
             by_cases h3 : r.length < l0.toNat + 256 * l1.toNat
-            · simp [rawStep, getOp, stepErr, lenBytes, declaredSize, h5, leNat, e, h3, hL, take_length_lt_iff,
+            · simp [rawStep, getOp, truncErr, lenBytes, declaredSize, h5, leNat, e, h3, hL, take_length_lt_iff,
                 take_eq_self_of_length_lt r h3]
-            · simp [rawStep, getOp, stepErr, lenBytes, declaredSize, h5, leNat, e, h3, hL, take_length_lt_iff]
+            · simp [rawStep, getOp, truncErr, lenBytes, declaredSize, h5, leNat, e, h3, hL, take_length_lt_iff]
         · have h6 : b.toNat = 0x4e := by omega
           rcases t with _ | ⟨l0, _ | ⟨l1, _ | ⟨l2, _ | ⟨l3, r⟩⟩⟩⟩
-          · simp [rawStep, getOp, stepErr, lenBytes, declaredSize, h6]
-          · simp [rawStep, getOp, stepErr, lenBytes, declaredSize, h6]
-          · simp [rawStep, getOp, stepErr, lenBytes, declaredSize, h6]
-          · simp [rawStep, getOp, stepErr, lenBytes, declaredSize, h6]
+          · simp [rawStep, getOp, truncErr, lenBytes, declaredSize, h6]
+          · simp [rawStep, getOp, truncErr, lenBytes, declaredSize, h6]
+          · simp [rawStep, getOp, truncErr, lenBytes, declaredSize, h6]
+          · simp [rawStep, getOp, truncErr, lenBytes, declaredSize, h6]
           · have e : l0.toNat + l1.toNat * 256 + l2.toNat * 65536 + l3.toNat * 16777216 =
                 l0.toNat + 256 * (l1.toNat + 256 * (l2.toNat + 256 * l3.toNat)) := by omega
             have hL : ¬ (r.length + 1 + 1 + 1 + 1 < 4) := by omega
             by_cases h3 : r.length < l0.toNat + 256 * (l1.toNat + 256 * (l2.toNat + 256 * l3.toNat))
-            · simp [rawStep, getOp, stepErr, lenBytes, declaredSize, h6, leNat, e, h3, hL, take_length_lt_iff,
+            · simp [rawStep, getOp, truncErr, lenBytes, declaredSize, h6, leNat, e, h3, hL, take_length_lt_iff,
                 take_eq_self_of_length_lt r h3]
-            · simp [rawStep, getOp, stepErr, lenBytes, declaredSize, h6, leNat, e, h3, hL, take_length_lt_iff]
+            · simp [rawStep, getOp, truncErr, lenBytes, declaredSize, h6, leNat, e, h3, hL, take_length_lt_iff]
 
 /-- what GetScriptOp consumed is exactly the encoding of the operation it returned -/
 theorem getOp_enc {s : Bytes} {o : Nat} {d rest : Bytes} (h : getOp s = some (o, d, rest)) :
@@ -153,7 +149,7 @@ theorem rawIterFrom_cons (idx : Nat) (b : UInt8) (t : Bytes) :
           (⟨o, if o > 0x4e then none else some d, idx⟩ ::
               (rawIterFrom (idx + ((b :: t).length - rest.length)) rest).1,
             (rawIterFrom (idx + ((b :: t).length - rest.length)) rest).2)
-      | none => ([], some (stepErr b t)) := by
+      | none => ([], some (truncErr b t)) := by
   have h := rawStep_cons idx b t
   rcases hg : getOp (b :: t) with _ | ⟨o, d, rest⟩
   · rw [hg] at h; simp only at h ⊢
@@ -215,7 +211,8 @@ theorem rawIter_parse (s : Bytes) :
 theorem rawIterFrom_partition (n : Nat) : ∀ (idx : Nat) (s : Bytes), s.length ≤ n →
     ∃ rest, s = ((rawIterFrom idx s).1.map RawOp.enc).flatten ++ rest ∧
       ((rawIterFrom idx s).2 = none → rest = []) ∧
-      ((rawIterFrom idx s).2 ≠ none → TruncatedPush rest) ∧
+      (∀ e, (rawIterFrom idx s).2 = some e →
+        ∃ b t, rest = b :: t ∧ e = truncErr b t ∧ TruncatedPush rest) ∧
       (∀ i (h : i < (rawIterFrom idx s).1.length),
         ((rawIterFrom idx s).1[i]).sopIdx =
           idx + (((rawIterFrom idx s).1.take i).map RawOp.enc).flatten.length) := by
@@ -231,7 +228,8 @@ theorem rawIterFrom_partition (n : Nat) : ∀ (idx : Nat) (s : Bytes), s.length 
     · exact ⟨[], by simp [rawIterFrom_nil]⟩
     · rw [rawIterFrom_cons]
       rcases hg : getOp (b :: t) with _ | ⟨o, d, rest'⟩
-      · exact ⟨b :: t, by simp, by simp, fun _ => getOp_none_trunc hg, by simp⟩
+      · refine ⟨b :: t, by simp, by simp, fun e he => ⟨b, t, rfl, ?_, getOp_none_trunc hg⟩, by simp⟩
+        simpa using he.symm
       · have hlt := getOp_rest_lt hg
         obtain ⟨hs', _, hd⟩ := getOp_enc hg
         have henc : RawOp.enc ⟨o, if o > 0x4e then none else some d, idx⟩ = opEnc o d := by
